@@ -293,7 +293,15 @@ func (x *Exec) execInstr(fr *Frame, b *ssa.BasicBlock, st *State, ins ssa.Instru
 		cp := x.val(fr, st, in.Cap)
 		x.safety(fr, "makeslice", snippetOf(in), st, and(le(intLit(0), ln), le(ln, cp)), in.Pos())
 		arrT := types.NewArray(et, 0)
-		ref := x.alloc(st, arrT, Term{fmt.Sprintf("((as const %s) %s)", arraySort(SInt, vc.sortOf(et)), vc.zero(et).S), arraySort(SInt, vc.sortOf(et))})
+		var initArr Term
+		if ln.S == "0" && vc.noName == 0 {
+			// make([]T, 0, n): no element is observable before it is appended; an unconstrained
+			// array keeps the VC free of constant-array terms over named struct values (cvc5 rejects those)
+			initArr = vc.fresh("mk", arraySort(SInt, vc.sortOf(et)))
+		} else {
+			initArr = vc.zero(types.NewArray(et, 0))
+		}
+		ref := x.alloc(st, arrT, initArr)
 		fr.regs[in] = vc.name("sl", mkSlice(ref, intLit(0), ln, cp))
 		return false
 
